@@ -116,7 +116,7 @@ func TestVerifC12(t *testing.T) {
 	var jobs []job
 	perRoot := map[string]int{}
 	for _, r := range roots {
-		ps := vrt.EnumeratePaths(r.MD, vrt.IsNamespaceNameField, vrt.WalkOptions{MaxPerType: 2, ThroughBlobs: true})
+		ps := vrt.EnumeratePaths(r.MD, vrt.IsNamespaceNameField, vrt.WalkOptions{MaxPerType: vfMaxPerType(), ThroughBlobs: true})
 		perRoot[r.String()] = len(ps)
 		for _, p := range ps {
 			jobs = append(jobs, job{r, p})
